@@ -46,6 +46,7 @@ class Callee:
     cls: str | None = None           # class name of a returned ref
     post: Any = None                 # for kind 'uf'/'effect': assumed facts  callable(ex, bound, result)->F|term|None
     lazy: bool = False               # kind 'custom' called by bare name: the handler gets the call node, arguments unevaluated
+    raise_guard: Any = None          # callable(ex, bound) -> z3 Bool assumed on the raising branch (when the callee can only raise under a condition)
 
 
 @dataclass
